@@ -243,9 +243,16 @@ where
     if !len.is_power_of_two() {
         r.out.class("domain_non_pow2");
     }
+    let mut last_look = 0usize;
     for (i, op) in case.ops.iter().enumerate() {
         if r.out.failure.is_some() || r.out.blocked.is_some() {
             break;
+        }
+        if [S_QUERY, S_PQUERY, S_QUERYALL].contains(&op.kind) {
+            if i >= last_look + 100 {
+                r.out.class("sparse_observations");
+            }
+            last_look = i;
         }
         match r.step(i, op) {
             Step::Continue => {}
@@ -557,6 +564,21 @@ where
             if per_place.iter().any(|c| *c >= 17) {
                 self.out.class("chunk_ge_17_entries");
             }
+            if per_place.iter().any(|c| *c >= 129) {
+                self.out.class("chunk_ge_129_entries");
+            }
+            {
+                // a list of >= 128 copies every one of which is expired at this query
+                let mut expired_per_place = [0u32; 64];
+                for (p, _, v) in &pre_copies {
+                    if *p < 64 && v.exp < t {
+                        expired_per_place[*p] += 1;
+                    }
+                }
+                if (0..64).any(|p| per_place[p] >= 128 && expired_per_place[p] == per_place[p]) {
+                    self.out.class("query_all_of_ge_128_list_expired");
+                }
+            }
             if per_place.iter().any(|c| *c >= 65) {
                 self.out.class("chunk_ge_65_entries");
             }
@@ -663,9 +685,10 @@ where
                 }
             }
         }
-        // C15 through the API: on a domain of at most 32 points (bucket == point) the stored-at
-        // places of every unexpired value must meet the visited places iff the ranges overlap
-        if self.rc.obs(15) && full_ids && self.lay.shift == 0 {
+        // C15 through the API: the stored-at places of every unexpired value must meet the visited
+        // places iff the bucket ranges overlap (`expected` is computed from bucket overlap), whatever
+        // the width of a bucket
+        if self.rc.obs(15) && full_ids {
             // single insert: the masks meet iff the bucket ranges overlap
             self.out.observations += 1;
             if ids != expected {
